@@ -9,6 +9,8 @@ stdout: one JSON result per line
     {"id": "...", "known": true|false, "import": "ok"|"<ExceptionType>",
      "ctors": "ok"|"exc"|"", "ctor_exc": "<ExceptionType>", "ctor": <json>|null,
          json.dumps(Cls(), cls=<generated JSONEncoder>)
+     "ctor2s", "ctor2": the same for a SECOND Cls() built after every list / dict held by a first Cls() was mutated in
+         place (op "ctor2": default values must not be shared between instances)
      "res": [ per document {"rt": "ok"|"exc", "stage": "from_json"|"to_json", "exc": "<ExceptionType>",
                             "enc": <json>|null} ]}
          json.dumps(Cls.from_json(json.loads(doc)), cls=<generated JSONEncoder>)
@@ -18,6 +20,24 @@ the generated SDK does.  Exceptions are outcomes (type name only; messages are n
 import importlib
 import json
 import sys
+
+
+def mutate(obj, seen):
+    """append to every list and add a key to every dict reachable through the attributes of a generated object"""
+    if id(obj) in seen:
+        return
+    seen.add(id(obj))
+    if isinstance(obj, list):
+        for x in list(obj):
+            mutate(x, seen)
+        obj.append("__mutated__")
+    elif isinstance(obj, dict):
+        for x in list(obj.values()):
+            mutate(x, seen)
+        obj["__mutated__"] = "__mutated__"
+    elif hasattr(obj, "__dict__") and hasattr(obj, "to_json"):
+        for x in list(vars(obj).values()):
+            mutate(x, seen)
 
 
 def main():
@@ -61,6 +81,16 @@ def main():
                 parts.append('"ctors":"ok","ctor":%s' % text)
             except BaseException as e:  # noqa
                 parts.append('"ctors":"exc","ctor":null,"ctor_exc":%s' % json.dumps(type(e).__name__))
+        if "ctor2" in ops:
+            # history: build a default object, MUTATE every list / dict it holds in place (as a user filling the object
+            # would), build another default object: it must still print the defaults
+            try:
+                first = cls()
+                mutate(first, set())
+                text = json.dumps(cls(), cls=encoder)
+                parts.append('"ctor2s":"ok","ctor2":%s' % text)
+            except BaseException as e:  # noqa
+                parts.append('"ctor2s":"exc","ctor2":null,"ctor2_exc":%s' % json.dumps(type(e).__name__))
         res = []
         if "rt" in ops:
             for d in job["docs"]:
